@@ -23,7 +23,8 @@ EXPLANATION = (
     "counters once after the hook returns; the simulator bumps jobs once per segment and circuits on the native "
     "branch only; the default batch hook runs the circuits pairwise in order; (D5) the tracking wrapper returns the "
     "very object the wrapped runner returned and builds its record (counts, shot number, serialised circuit) from "
-    "that same measurement/circuit pair, appended before saving."
+    "that same measurement/circuit pair, appended before saving. "
+    "Entry points are resolved as defined or inherited: a simulator that drops its own run_and_measure inherits the base runner's counting, which is reported."
 )
 RULE_TEXT = "instances = (class, entry point, execution call) triples, counter writes, guard tests, tracker return/record fields; distinct by (rule, construct)"
 ASSUMPTIONS = [
